@@ -8,6 +8,7 @@ import (
 	"sort"
 	"strings"
 
+	"github.com/RoaringBitmap/roaring"
 	segment "github.com/blugelabs/bluge_segment_api"
 
 	"verifharness/model"
@@ -140,8 +141,68 @@ func ObserveDict(seg segment.Segment, f string) ([]Term, error) {
 		if err != nil {
 			return nil, fmt.Errorf("postings %q: %w", t.Term, err)
 		}
+		if err := navCheck(dict, t); err != nil {
+			return nil, fmt.Errorf("postings %q: %w", t.Term, err)
+		}
 	}
 	return out, nil
+}
+
+// navCheck cross-checks the full walk against the two ways of SKIPPING postings, which rely on
+// the per-posting length prefixes of the freq/norm and location streams rather than on decoding
+// every entry: (1) the list opened with the first document excluded must walk as postings[1:];
+// (2) a fresh iterator advanced straight to the k-th document must deliver exactly postings[k]
+// (k = 1, middle, last). A disagreement is reported as an observation error.
+func navCheck(dict segment.Dictionary, t *Term) error {
+	n := len(t.Postings)
+	if n < 2 {
+		return nil
+	}
+	ex := roaring.BitmapOf(uint32(t.Postings[0].Doc))
+	pl, err := dict.PostingsList([]byte(t.Term), ex, nil)
+	if err != nil {
+		return fmt.Errorf("navigation: postings list with exclusion: %w", err)
+	}
+	rest, err := WalkAll(pl)
+	if err != nil {
+		return fmt.Errorf("navigation: walk with the first document excluded: %w", err)
+	}
+	if fmt.Sprint(rest) != fmt.Sprint(t.Postings[1:]) {
+		return fmt.Errorf("navigation: with the first document excluded the walk differs from the tail of the full walk: got %v want %v", clip(rest), clip(t.Postings[1:]))
+	}
+	pl, err = dict.PostingsList([]byte(t.Term), nil, nil)
+	if err != nil {
+		return err
+	}
+	seen := map[int]bool{}
+	for _, k := range []int{1, n / 2, n - 1} {
+		if k < 1 || seen[k] {
+			continue
+		}
+		seen[k] = true
+		it, err := pl.Iterator(true, true, true, nil)
+		if err != nil {
+			return err
+		}
+		p, err := it.Advance(t.Postings[k].Doc)
+		if err != nil {
+			return fmt.Errorf("navigation: Advance(%d): %w", t.Postings[k].Doc, err)
+		}
+		if p == nil {
+			return fmt.Errorf("navigation: Advance(%d) on a fresh iterator returned nothing, the full walk has %v", t.Postings[k].Doc, t.Postings[k])
+		}
+		if got := CopyPosting(p); fmt.Sprint(got) != fmt.Sprint(t.Postings[k]) {
+			return fmt.Errorf("navigation: Advance(%d) on a fresh iterator: got %v, the full walk has %v", t.Postings[k].Doc, got, t.Postings[k])
+		}
+	}
+	return nil
+}
+
+func clip(p []Posting) []Posting {
+	if len(p) > 4 {
+		return p[:4]
+	}
+	return p
 }
 
 func CopyPosting(p segment.Posting) Posting {
